@@ -1,0 +1,48 @@
+// Verification contracts (comment-only, compiled only with the "verif" build tag; read by /verif/govc).
+
+//go:build verif
+// +build verif
+
+package staking
+
+// Contracts for tx_converter.go — property C17: a staking transaction is accepted exactly once (nonce + 1 on every path
+// past the module-address check), its gas only decreases, and a failed staking transaction is still included
+// ("failed-but-included"): nonce stays raised, all gas is consumed (since YouV4), no balance changes.
+
+// The nine action handlers, called through the `handlers` table (a function value of type handlerFn).
+// ASSUMED (DESIGN §7 C17 clause 6, not decided here): a handler returns an error only on paths without a balance write,
+// and no handler touches the message context's gas fields, the nonce or the block gas pool (they use ctx.State for
+// validators/staking records/logs, and SubBalance of the sender in handleCreate/handleDeposit/handleDelegationAdd).
+//@ func dynamic:handlerFn props C17
+//@ trusted
+//@ modifies c17Bal
+//@ ensures result != nil ==> c17Bal == old(c17Bal)
+
+//@ func getHandler props C17
+//@ pure
+//@ opt noalloc
+
+//@ func (*TxConverter).IntrinsicGas props C17
+//@ panics none
+//@ modifies nothing
+//@ ensures [exact] result1 == nil ==> result0 == c17Intrinsic(params.TxValidatorGas, data)
+//@ ensures [refuse-iff-above-uint64] (result1 != nil) == (c17Intrinsic(params.TxValidatorGas, data) >= 2^64)
+
+//@ func (*TxConverter).ApplyMessage props C17
+//@ requires c17CtxOK(msgCtx) && msgCtx.AvailableGas <= msgCtx.InitialGas
+//@ requires msgCtx.Cfg != nil && msgCtx.Cfg.CurrYouParams != nil
+//@ requires 0 <= c17Nonce[c17From(msgCtx.Msg)] && c17Nonce[c17From(msgCtx.Msg)] < 2^64 - 1
+//@ let from = c17From(msgCtx.Msg)
+//@ let to = c17To(msgCtx.Msg)
+//@ let version = msgCtx.Cfg.CurrYouParams.Version
+//@ let wrongModule = c17To(msgCtx.Msg) == nil || *c17To(msgCtx.Msg) != params.StakingModuleAddress
+//@ modifies msgCtx.AvailableGas, c17Bal, c17Nonce
+//@ ensures [wrong-module-refused] wrongModule ==> result3 == errModuleAddress &&
+//@     c17Bal == old(c17Bal) && c17Nonce == old(c17Nonce) && msgCtx.AvailableGas == old(msgCtx.AvailableGas)
+//@ ensures [accepted-otherwise] !wrongModule ==> result3 == nil
+//@ ensures [nonce-plus-one] result3 == nil ==> c17Nonce == store(old(c17Nonce), from, old(c17Nonce[from]) + 1)
+//@ ensures [gas-only-decreases] msgCtx.AvailableGas <= old(msgCtx.AvailableGas)
+//@ ensures [used-gas] result3 == nil && version >= params.YouV4 ==> result1 == msgCtx.InitialGas - msgCtx.AvailableGas
+//@ ensures [failed-consumes-all-gas] result3 == nil && result2 && version >= params.YouV4 ==> msgCtx.AvailableGas == 0 ||
+//@     (version >= params.YouV5 && msgCtx.AvailableGas == old(msgCtx.AvailableGas) && old(msgCtx.AvailableGas) < params.TxValCreationGas)
+//@ ensures [failed-changes-no-balance] result3 == nil && result2 ==> c17Bal == old(c17Bal)
